@@ -59,6 +59,7 @@ def parseOp (h : Heap) (s : String) : Option Op :=
   | ["ex", x] => do let x ← resolve h x; pure (.extract x)
   | ["cl", t] => do let t ← resolve h t; pure (.clear t)
   | ["de", x] => do let x ← resolve h x; pure (.decompose x)
+  | ["cd", t] => do let t ← resolve h t; pure (.clearDecompose t)
   | ["sm", t] => do let t ← resolve h t; pure (.smooth t)
   | ["ss", t, k, v] => do
       let t ← resolve h t
